@@ -165,3 +165,29 @@ func VH_C11_join() {
 	vAssert(again, "C11.join.resolution-after-join-panics")
 	vAssert(vLocksHeld() == 0, "C11.join.after.no-lock-held")
 }
+
+// Join of a promise that already handed out a pipelined client: the client moves to the parent and
+// is resolved with it
+func VH_C11_join_with_clients() {
+	p1 := NewPromise(Method{}, &vCaller{})
+	p2 := NewPromise(Method{}, &vCaller{})
+	c := p2.Answer().Client()
+	vAssert(c != nil && vLocksHeld() == 0, "C11.joinclients.client")
+	if vNondetBool() {
+		_ = p1.Answer().Client() // the parent may or may not have clients of its own
+	}
+	vRegion("join_into_parent_without_clients", true)
+	p2.Join(p1.Answer())
+	vReach("joined")
+	vAssert(vLocksHeld() == 0, "C11.joinclients.no-lock-held")
+	p1.Fulfill(Ptr{})
+	vAssert(vLocksHeld() == 0, "C11.joinclients.fulfill.no-lock-held")
+	vAssert(vIsClosed(p2.Answer().Done()), "C11.joinclients.child-resolved")
+	// the pipelined client handed out by the child now refers to the resolution (null -> error)
+	ans, _ := c.SendCall(context.Background(), Send{})
+	_, err := ans.Struct()
+	vAssert(err != nil, "C11.joinclients.client-resolved")
+	p1.ReleaseClients()
+	p2.ReleaseClients()
+	vAssert(vLocksHeld() == 0, "C11.joinclients.release.no-lock-held")
+}
